@@ -214,6 +214,21 @@ class FormatPart(Part):
             lines.append(ln)
             meta.append((sec, pre + head, tail + post, idx))
         judge(res, f, lines, meta, case["salt"])
+        # the same lines indented and wrapped (indentation + line-initial enclosing text)
+        for lead, trail in (('      "', '",'), ("\t{ ", " }"), ("  ['", "']")):
+            if '"' in f["template"] and '"' in lead:
+                continue
+            wl = [lead + ln + trail for ln in lines[::7]]
+            wm = []
+            for (sec, head, tail, idx), ln in zip(meta[::7], lines[::7]):
+                ntok = len(ln.split())
+                extra = len(lead.split()) - (0 if lead[-1:].isspace() else 1)
+                h2 = head if idx + extra != 0 or lead[-1:].isspace() else lead.strip() + head
+                if idx == 0 and not lead[-1:].isspace():
+                    h2 = lead.lstrip() + head
+                t2 = tail + trail if (idx == ntok - 1 and not trail[:1].isspace()) else tail
+                wm.append((sec, h2, t2, idx + extra))
+            judge(res, f, wl, wm, case["salt"])
         if "only" not in case:
             res.samples.append({"form": f["template"], "salt": case["salt"], "secrets": len(lines),
                                 "example": lines[len(lines) // 2]})
